@@ -48,6 +48,7 @@ case_strategy = st.fixed_dictionaries({
     "backend": st.sampled_from(["virtual", "direct", "software", "batch"]),
     "brightness": st.sampled_from([1.0, 1.0, 0.5, 0.75]),
     "profile": st.booleans(),
+    "rgbw_style": st.sampled_from(["duck_rgb", "duck_rgb", "white_only", "min_rgb"]),
     "ops": st.lists(op, min_size=3, max_size=30),
 })
 
@@ -213,6 +214,9 @@ def check(case):
         if len(vio) < 5:
             vio.append(violation(sig + ":" + case["backend"], msg))
     patches = {}
+    if case.get("rgbw_style", "duck_rgb") != "duck_rgb":
+        patches["mpf"] = {"rgbw_white_behavior": case["rgbw_style"]}
+        classes.add("rgbw " + case["rgbw_style"])
     if case["profile"]:
         patches["light_settings"] = {"color_correction_profiles": {"prof": {"gamma": 2.0, "whitepoint": [0.9, 0.8, 1.0],
                                                                              "linear_slope": 0.75, "linear_cutoff": 0.1}},
